@@ -23,9 +23,9 @@ open Babble
 
 open Finset
 
-variable {W : Type} [DecidableEq W] [Fintype W]
+variable {W : Type} [DecidableEq W]
 
-structure VoteSys (W : Type) [DecidableEq W] [Fintype W] where
+structure VoteSys (W : Type) [DecidableEq W] where
   n : Nat
   lvl : W → Nat
   creator : W → Fin n
